@@ -184,7 +184,30 @@ def composite_needs_quoting(case) -> bool:
     return False
 
 
+def _null_optional_enum(case) -> bool:
+    for name, decl in case["doc"]["inputs"].items():
+        t = decl["type"]
+        if isinstance(t, list) and any(isinstance(x, dict) and x.get("type") == "enum" for x in t) \
+                and case["job"].get(name) is None:
+            return True
+    return False
+
+
+def _inner_binding_without_outer(case) -> bool:
+    for decl in case["doc"]["inputs"].values():
+        t = decl["type"]
+        if isinstance(t, list):
+            t = [x for x in t if x != "null"][0]
+        if isinstance(t, dict) and t.get("type") == "array" and "inputBinding" in t and "inputBinding" not in decl:
+            return True
+    return False
+
+
 def kind_for(case, symptom: str, detail: str) -> str:
+    if symptom == "sf-fails-only" and "is not optional" in detail and _null_optional_enum(case):
+        return "C30:optional-enum-null-rejected"
+    if symptom == "argv-mismatch" and _inner_binding_without_outer(case):
+        return "C30:array-schema-binding-without-outer-binding-order"
     env = case["doc"].get("requirements", {}).get("EnvVarRequirement", {}).get("envDef", {})
     if symptom in ("sf-fails-only", "argv-mismatch", "dump-unreadable") and composite_needs_quoting(case) and not any(
             set(v) & set('$`"\\') for v in env.values()):
@@ -220,14 +243,20 @@ def known_shape_cases(seed: int = 1) -> list[dict]:
                               "inputBinding": {"position": 1, "prefix": "--with space", "itemSeparator": ","}}},
                       {"xs": ["a", "b;c"]}, None, "composite-binding"))
     cases.append(tool(arr, {"xs": ["", "q'r", "$HOME"]}, None, "composite-binding"))
+    cases.append(tool({"e": {"type": ["null", {"type": "enum", "symbols": ["alpha", "beta"]}], "inputBinding": {"position": 1}},
+                       "a": {"type": "string", "inputBinding": {"position": 2}}}, {"a": "v"}, None, "optional-enum-null"))
+    inner = {"type": "array", "items": "string", "inputBinding": {"position": 1, "prefix": "-I=", "separate": False}}
+    cases.append(tool({"b0": {"type": inner}, "b2": {"type": "string", "inputBinding": {"position": 1}},
+                       "x1": {"type": "string", "inputBinding": {}}}, {"b0": ["p", "q"], "b2": "B", "x1": "X"}, None,
+                      "array-schema-binding-without-outer"))
     return cases
 
 
 def gen_known_shapes(tier):
     cases = known_shape_cases(_seed())
     if tier == "quick":
-        yield cases[0]
-        yield cases[2]
+        for i in (0, 2, 5, 6):
+            yield cases[i]
     else:
         yield from cases
 
